@@ -524,6 +524,10 @@ fn gen_world(t: &mut Tape) -> WorldSpec {
 }
 
 /// What the library does with the same file contents and standard input.
+/// Stands for the text of a runtime error that the library returned in the
+/// ordinary way but cannot turn into text (rendering it panics).
+const NO_TEXT: &str = "\u{0}<the library cannot render this error>";
+
 enum LibRef {
     ParseError(String),
     /// the parser returned an error in the ordinary way, but turning that
@@ -555,10 +559,13 @@ fn library(w: &WorldSpec) -> Result<LibRef, String> {
                 Sub::Exec => {
                     let mut out = Vec::new();
                     let r = rrss::exec::exec_using(&stdin[..], &mut out, &program);
-                    LibRef::Exec {
-                        out,
-                        error: r.err().map(|e| e.to_string()),
-                    }
+                    // (an error whose text cannot be rendered - Display
+                    // panics - is still an error to be reported: marked)
+                    let error = r.err().map(|e| {
+                        std::panic::catch_unwind(std::panic::AssertUnwindSafe(|| e.to_string()))
+                            .unwrap_or_else(|_| NO_TEXT.to_string())
+                    });
+                    LibRef::Exec { out, error }
                 }
                 Sub::Parse => LibRef::Tree(format!("{:#?}\n", program)),
                 Sub::Lint => LibRef::Lint(
@@ -712,7 +719,13 @@ fn judge(w: &WorldSpec, lib: &Result<LibRef, String>, sep: &ProcResult, shared: 
                     format!("standard output differs from the library's output at byte {} (binary {} bytes, library {} bytes)", d, sep.stdout.len(), out.len()),
                 ));
             }
-            if let Some(msg) = error {
+            if error.as_deref() == Some(NO_TEXT) {
+                // (R7 above: the tool has not died of it) a runtime error is
+                // reported as such
+                if !contains(&stderr.to_ascii_lowercase(), b"runtime error") {
+                    return Some(("C20.R2-error-on-stderr", "the run ends in a runtime error, but nothing prefixed as a runtime error is on standard error".into()));
+                }
+            } else if let Some(msg) = error {
                 match find_from(&stderr, msg.as_bytes(), 0) {
                     None => {
                         return Some(("C20.R2-error-on-stderr", format!("standard error does not contain the library's runtime error text {:?}", msg)))
